@@ -289,6 +289,9 @@ def check(prop, tier, run: Run, replay_case=None):
                 nontriv.add(json.dumps([ev["S"], ev["z"], ev["lo"]]))
         run.cov["samples"] += [{"config": name, "streams": c["S"], "zones": c["z"], "ladder": c["ladder"],
                                 "descriptions": ["base"] + [v["g"] for v in c["variants"]]} for c in cases[len(cases) // 2:][:2]]
+    if prop in ("C02", "C09", "C14"):
+        from . import corpus
+        corpus.leg_t(run, prop, tier)
     if prop == "C14":
         run.register_matcher("kf_indirect", kf_indirect)
         run.register_matcher("kf_opzones", kf_opzones)
